@@ -28,6 +28,7 @@ const (
 	lzDeleteAll
 	lzCleanup
 	lzObserve
+	lzExpunge // the delete-long-expired half of a cleanup cycle (deterministic)
 )
 
 type lzIn struct {
@@ -115,6 +116,13 @@ var lzModel = (&porcupine.NondeterministicModel{
 			}
 
 			return []interface{}{s}
+		case lzExpunge:
+			// removes exactly the entries expired longer than DeleteExpiredAfter (in.e carries the boundary)
+			if s.present && s.e != 0 && s.e < in.e {
+				return []interface{}{lzState{}}
+			}
+
+			return []interface{}{s}
 		case lzObserve:
 			if s.present && s.key == in.key && s.tok == out.tok && s.e == out.e {
 				return []interface{}{s}
@@ -151,6 +159,7 @@ func propLinearizable(c *Case) {
 	strategy := cache.EvictionStrategy(c.Pick("strategy", 3))
 	nslots := c.Int("slots", 2, 5)
 	cfgTTL := []time.Duration{time.Hour, cache.UnlimitedTTL, time.Second}[c.Pick("cfgTTL", 3)]
+	evict := c.Bool("eviction")
 
 	// slot keys: slot 0 is a colliding pair on hash-indexed backends
 	base := make([]byte, 70)
@@ -193,10 +202,10 @@ func propLinearizable(c *Case) {
 			for i := 0; i < nops; i++ {
 				o := lzOpSpec{slot: c.Pick("slot", nslots), spin: c.Int("spin", 0, 2)}
 
-				switch c.Weighted("op", 8, 8, 4, 1, 1, 1, 2, 1) {
+				switch c.Weighted("op", 8, 8, 4, 1, 1, 3, 2, 1) {
 				case 0:
 					o.kind = lzWrite
-					o.ttl = []time.Duration{0, time.Hour, time.Second, -time.Second}[c.Pick("ttl", 4)]
+					o.ttl = []time.Duration{0, time.Hour, time.Second, -time.Second, -2 * time.Hour}[c.Pick("ttl", 5)]
 				case 1:
 					o.kind = lzRead
 				case 2:
@@ -233,9 +242,15 @@ func propLinearizable(c *Case) {
 		lens    []int
 	)
 
+	limit := uint64(0)
+	if evict {
+		limit = 2
+		c.Class("eviction-enabled")
+	}
+
 	c.Bubble(func() {
 		be := newCaseBackend(c, kind, cache.Config{
-			TimeToLive: cfgTTL, ExpirationJitter: -1, EvictionStrategy: strategy, CountSoftLimit: 2, EvictFraction: 0.5,
+			TimeToLive: cfgTTL, ExpirationJitter: -1, EvictionStrategy: strategy, CountSoftLimit: limit, EvictFraction: 0.5,
 			DeleteExpiredJobInterval: farFuture, DeleteExpiredAfter: time.Hour,
 		})
 
@@ -334,12 +349,19 @@ func propLinearizable(c *Case) {
 							ret := atomic.AddInt64(&stamp, 1)
 
 							for s := 0; s < nslots; s++ {
-								record(cid, lzIn{kind: o.kind, slot: s, now: now}, lzOut{}, call, ret)
-
-								if o.kind == lzCleanup {
-									// A cleanup cycle is two batch operations (delete long-expired entries, then
-									// evict), each acting on a key at its own instant within the call.
+								if o.kind != lzCleanup {
 									record(cid, lzIn{kind: o.kind, slot: s, now: now}, lzOut{}, call, ret)
+
+									continue
+								}
+
+								// A cleanup cycle is two batch operations, each acting on a key at its own
+								// instant within the call: delete entries expired longer than
+								// DeleteExpiredAfter (exactly those), then evict (anything, if a limit is set).
+								record(cid, lzIn{kind: lzExpunge, slot: s, now: now, e: now - int64(time.Hour)}, lzOut{}, call, ret)
+
+								if evict {
+									record(cid, lzIn{kind: lzCleanup, slot: s, now: now}, lzOut{}, call, ret)
 								}
 							}
 						case lzWalk:
